@@ -59,6 +59,13 @@ def evaluate(spec):
             truth.append(conn.expected_export())
         else:
             truth.append(None)
+    meta = bool((spec.get("opts") or {}).get("a"))
+    if meta:
+        # with -a the export also holds handshake material: the prefix chain is judged, the ground truth (application data only) is not
+        truth = [None] * len(truth)
+    for ci, cs in enumerate(spec["conns"]):
+        if cs.get("hrr"):
+            truth[ci] = None            # what is exported after a HelloRetryRequest is not claimed; that it only ever grows is
     prev = None
     sig, detail = None, ""
     distinct = set()
@@ -79,7 +86,7 @@ def evaluate(spec):
         keys = None
         if per_conn_dsb is not None:
             keys = {"file": False, "dsb": [ln for first, ln in per_conn_dsb if first < k], "dsb_pos": [first for first, ln in per_conn_dsb if first < k]}
-        o = oracle.run_e2e(b, wd, pkts=b.pkts[:k], keys=keys, name="cut")
+        o = oracle.run_e2e(b, wd, pkts=b.pkts[:k], keys=keys, opts=spec.get("opts"), name="cut")
         evals += 1
         f = oracle.base_failure(o)
         if f:
@@ -91,7 +98,7 @@ def evaluate(spec):
             sig, detail = "cut capture yields malformed TCP conversation: " + str(e).split(":")[0][:40], f"cut at {k}/{n}: {e}"
             break
         for ci, (c, t) in enumerate(zip(cur, truth)):
-            if not is_prefix(c, t):
+            if t is not None and not is_prefix(c, t):
                 kind = spec["conns"][ci]["kind"]
                 sig, detail = f"{kind}: export of a cut capture is not a prefix of the true plaintext", f"cut at {k}/{n}, connection #{ci}"
                 break
@@ -116,7 +123,7 @@ def evaluate(spec):
                 cut_inside_record = True
     kinds = "+".join(sorted(c["kind"] for c in spec["conns"]))
     return {"sig": sig, "detail": detail, "nontrivial": len(distinct) >= 3 and (cut_inside_record or "quic" in kinds), "evals": evals,
-            "labels": ["kinds:" + kinds, "keys:" + ("dsb-per-connection" if spec.get("dsb_per_conn") else "file"), "cuts:%s" % ("<=20" if n <= 20 else "21-40" if n <= 40 else "41+"), "times:" + (spec.get("times") or "epoch"), "growth-steps:%d" % min(len(distinct), 9)]}
+            "labels": ["kinds:" + kinds, "keys:" + ("dsb-per-connection" if spec.get("dsb_per_conn") else "file"), "cuts:%s" % ("<=20" if n <= 20 else "21-40" if n <= 40 else "41+"), "times:" + (spec.get("times") or "epoch"), "opts:" + ("-a" if (spec.get("opts") or {}).get("a") else "-"), "growth-steps:%d" % min(len(distinct), 9)]}
 
 
 @st.composite
@@ -134,6 +141,8 @@ def spec_strategy(draw, tier):
                 c["hs_frag"] = 256        # small certificates keep the captures short; a small fragment size still splits the flight over records
             c["tcp"]["mss"] = max(c["tcp"]["mss"], 536)
             c["tcp"]["acks"] = False
+            if c["version"] == 0x0304 and draw(st.integers(0, 5)) == 0:
+                c["hrr"] = draw(st.integers(1, 2))
         else:
             c = draw(strategies.quic_conn(max_steps=6, ep=ep))
         c["seed"] = c["seed"] * 8 + i
@@ -142,6 +151,8 @@ def spec_strategy(draw, tier):
           "dsb_per_conn": draw(st.sampled_from([False, False, True]))}
     # "cut after any packet" is about the order of the packets in the file; their times need not follow it (captures merged from
     # several interfaces), and relative times start at 0
+    if draw(st.integers(0, 3)) == 0:
+        sc["opts"] = {"a": True}
     tm = draw(st.sampled_from([None, None, "disorder", "disorder", "zero", "long_gaps"]))
     if tm:
         sc["times"] = tm
@@ -174,6 +185,12 @@ def late_handshake_specs():
              "steps": [data(0, 20), data(1, 60), {"op": "rebind"}, data(0, 21), data(1, 61), data(0, 22), {"op": "rebind"}, data(1, 62), data(0, 23)],
              "ep": scenario.default_ep(60 + j, v6=v6)}
         out.append({"conns": [q], "order": [0], "tseed": 40 + j})
+    # TLS 1.3 with a HelloRetryRequest (with and without the compatibility ChangeCipherSpec), with and without -a: whatever is exported
+    # (not claimed by C01) only ever grows
+    for j, (hrr, a) in enumerate(((1, False), (2, False), (1, True), (2, True))):
+        c = {"kind": "tls", "version": 0x0304, "suite": 0x1301, "seed": 8950 + j, "hrr": hrr, "cert_len": 300, "history": [[0, 40, 0], [1, 120, 0], [0, 7, 0]],
+             "ep": scenario.default_ep(70 + j), "tcp": {"mode": "rec", "syn": True, "acks": False, "mss": 1400, "isn_c": 5, "isn_s": 9}}
+        out.append(dict({"conns": [c], "order": [0], "tseed": 50 + j}, **({"opts": {"a": True}} if a else {})))
     return out
 
 
